@@ -510,6 +510,11 @@ def check(model, rep, tier):
   rules_fold.check(model, rep, 'FOLD')
 
   # ---------------------------------------------------------------- dependencies
+  rep.depends('C01', ['TPL-FLAG'],
+              'break / continue / early return execute through the operators only if '
+              'the flag they set is consulted: reset at the top of every iteration, '
+              'tested first in the loop test and in the guards of the following '
+              'statements')
   rep.depends('C10', ['CACHE-KEY'],
               'which constructs are routed depends on the option set; the code '
               'served from the cache must have been produced under the requested '
